@@ -105,6 +105,28 @@ def regen_table():
 
 TABLE_OK = regen_table()
 
+
+def pick_exec_mod():
+    """Exec.v (model_ok) imports the regenerated GodGen.C12_Gen.  When that file no longer compiles (say `acceptable`
+    mentions io.EOF, which the GoLite environment does not know) Exec cannot be built and vlib could not search for a
+    failing input at all: fall back to ExecFallback (same spec_ok, model_ok = false)."""
+    genenv = os.path.join(vlib.COQ, "theories", "C12", "GenEnv.vo")
+    if not os.path.exists(genenv):
+        return "C12.Exec"
+    ok, _ = vlib.run_gogen(ID, GEN_SPEC)
+    if not ok:
+        return "C12.ExecFallback"
+    d = os.path.join(vlib.WORK, "C12_gen_probe_%d" % os.getpid())
+    os.makedirs(d, exist_ok=True)
+    rc, _ = vlib.sh(["coqc", "-Q", "theories", "God", "-Q", "gen", "GodGen", "-w", "-all", "-o", os.path.join(d, "C12_Gen.vo"),
+                     "gen/C12_Gen.v"], cwd=vlib.COQ, timeout=120)
+    import shutil
+    shutil.rmtree(d, ignore_errors=True)
+    return "C12.Exec" if rc == 0 else "C12.ExecFallback"
+
+
+EXEC_MOD = pick_exec_mod()
+
 LUA = [
     "return redis.call('GET', KEYS[1])",
     "redis.call('SET', KEYS[1], ARGV[1]); return ARGV[1]",
@@ -578,19 +600,19 @@ def _breaker(rng):
 
 
 
-def _connfail(rng, mode, sample=None):
+def _connfail(rng, mode, sample=None, n=2):
     """every guarded command (or a sample) twice against a peer failing in `mode`; the breaker only records"""
     ms = GUARDED if sample is None else sorted(rng.sample(GUARDED, sample))
     ops = [{"m": m, "form": "ctx", "a": REDIS_OPS[m](rng)} for m in ms]
     for op in ops:
         if op["m"].endswith("AndLimitCtx"):
             op["a"][4] = max(1, op["a"][4])      # size <= 0 is answered without a round trip (documented guard)
-    return {"kind": "connfail", "mode": mode, "n": 2, "ops": ops}
+    return {"kind": "connfail", "mode": mode, "n": n, "ops": ops}
 
 
 def _fixed_round5(rng, tier):
     full = tier not in ("quick",)
-    return [_counts(rng, False), _counts(rng, True), _connfail(rng, "eof"),
+    return [_counts(rng, False), _counts(rng, True), _connfail(rng, "eof", None, 2 if full else 1),
             _connfail(rng, "reset", None if full else 30), _connfail(rng, "hang", None if full else 12)]
 
 
@@ -694,9 +716,12 @@ def drive(cases, tier):
         groups[KV_PKG if c["kind"] == "kv" else GO_PKG].append(i)
     jobs = []
     for pkg, idx in groups.items():
-        for k in range(0, len(idx), CHUNK):
-            part = idx[k:k + CHUNK]
-            jobs.append((pkg, part, [cases[i] for i in part]))
+        # at least two processes per package (the fixed heavy cases come first: deal the cases out round-robin)
+        nproc = max(-(-len(idx) // CHUNK), 2 if len(idx) >= 8 else 1)
+        for k in range(nproc):
+            part = idx[k::nproc]
+            if part:
+                jobs.append((pkg, part, [cases[i] for i in part]))
     jobs.sort(key=lambda j: -len(j[1]))
     res, log = _run_chunks(jobs, tier)
     if res is None:
